@@ -70,6 +70,10 @@ func (o *oracle) checkHardState(s *sim, n *node, hs pb.HardState) {
 		s.fail("hardstate/commit-regressed", "node %d persists commit %d after commit %d", n.id, hs.Commit, p.Commit)
 	case hs.Term == p.Term && p.Vote != 0 && hs.Vote != p.Vote:
 		s.fail("hardstate/vote-changed", "node %d persists vote %d after vote %d in term %d", n.id, hs.Vote, p.Vote, hs.Term)
+	case hs.Term == n.ansTerm && n.ansVote != 0 && hs.Vote != 0 && hs.Vote != n.ansVote:
+		// the earlier vote was lost with an unsynced Ready, after it had been sent
+		s.fail("hardstate/vote-changed", "node %d votes for %d in term %d in which it already sent its vote for %d (that vote did not survive a crash)",
+			n.id, hs.Vote, hs.Term, n.ansVote)
 	}
 }
 
